@@ -70,6 +70,32 @@ fn int_cbor_roundtrip_boundaries() {
     assert!(int_roundtrip_ok(v));
 }
 
+
+/// C14/C01: BigInt in the range that is written as a plain CBOR uint / nint (-2^64 ..= 2^64-1) survives its encoding exactly
+/// (real num_bigint, real cbor_event; the tag-2 / tag-3 byte-string forms are NOT in this harness)
+fn bigint_roundtrip_ok(v: i128) -> bool {
+    let x = crate::BigInt(num_bigint::BigInt::from(v));
+    let mut se = cbor_event::se::Serializer::new_vec();
+    match cbor_event::se::Serialize::serialize(&x, &mut se) {
+        Ok(_) => {}
+        Err(_) => { return false; }
+    }
+    let bytes = se.finalize();
+    let mut de = cbor_event::de::Deserializer::from(std::io::Cursor::new(bytes));
+    match <crate::BigInt as crate::serialization::traits::Deserialize>::deserialize(&mut de) {
+        Ok(w) => w.0 == x.0,
+        Err(_) => false,
+    }
+}
+#[kani::proof]
+#[kani::stub(alloc::fmt::format, stub_format)]
+#[kani::unwind(10)]
+fn bigint_cbor_roundtrip_small_range() {
+    let v: i128 = kani::any();
+    kani::assume(v >= -(u64::MAX as i128) - 1 && v <= u64::MAX as i128);
+    assert!(bigint_roundtrip_ok(v));
+}
+
 // ---- C01: encode -> decode round trips of small composite types through the REAL encoders and decoders -------------------
 fn ser<T: cbor_event::se::Serialize>(x: &T) -> Option<Vec<u8>> {
     let mut se = cbor_event::se::Serializer::new_vec();
